@@ -426,6 +426,30 @@ def r9_inherited_bindings_are_copies(ctx, rep):
     n = common.shallow_copy_shares_lists(ctx, rep, elem_class)
     rep.ob("shallow copies of type-bound procedures inspected", True, f"{n} (copy, in-place-mutated list attribute) pair(s)",
            "ford/sourceform.py", nontrivial=False)
+    # the copy is the extending type's own binding: its URL, anchor and scope go by `parent`, which the copy takes over from the
+    # base type's binding unless it is re-bound - the child's page then links `type/<base>.html#<anchor of the copy>`
+    tc = py.func("FortranType.correlate")
+    sites = common.shallow_copy_sites(tc)          # nested helper functions included
+    if not sites:
+        raise AnalysisError("FortranType.correlate: the copies of inherited generic bindings were not found")
+    for st, cvar, src in sites:
+        owner = py.enclosing_function(st) or tc
+        reparented = any(isinstance(a, ast.Assign) and any(
+            isinstance(t, ast.Attribute) and t.attr == "parent" and isinstance(t.value, ast.Name) and t.value.id == cvar for t in a.targets)
+            and ast.unparse(a.value) == "self" for a in ast.walk(owner))
+        if not reparented and owner is not tc:
+            # a helper that returns the copy: re-parented by the caller on what the helper returned?
+            callers = [a for a in ast.walk(tc) if isinstance(a, ast.Assign) and isinstance(a.value, ast.Call) and call_name(a.value) == owner.name
+                       and len(a.targets) == 1 and isinstance(a.targets[0], ast.Name)]
+            calls = [c for c in py.walk_calls(tc) if call_name(c) == owner.name]
+            reparented = bool(calls) and len(callers) == len(calls) and all(any(
+                isinstance(b, ast.Assign) and any(isinstance(t, ast.Attribute) and t.attr == "parent" and isinstance(t.value, ast.Name)
+                                                  and t.value.id == a.targets[0].id for t in b.targets) for b in ast.walk(tc)) for a in callers)
+        rep.ob(f"FortranType.correlate: the copy `{cvar}` of an inherited binding belongs to the extending type", reparented,
+               f"`{cvar}.parent = self`" if reparented else
+               f"`{ast.unparse(st)}` keeps the `parent` of the base type's binding: the inherited generic is listed on the extending "
+               f"type's page under an anchor of its own, but its URL is built from the base type's page, where no such anchor exists",
+               py.nloc(st))
 
 # ------------------------------------------------------------------ scope tables are read by key
 def _name_search_helpers(py) -> set:
@@ -618,6 +642,122 @@ def r13_local_modules_first(ctx, rep):
     c16.r3_local_precedence(ctx, rep)
 
 
+def r14_namelist_members_innermost(ctx, rep):
+    """A namelist group names variables of the scope it stands in.  Inside a procedure a dummy argument hides a host or module
+    variable of the same name, so the table in which the member names are looked up gives the procedure's arguments precedence over
+    what the enclosing scope's `all_vars` holds (which has the locals and everything host-associated, but not the dummies)."""
+    py = ctx.py
+    fn = py.func("FortranNamelist.correlate")
+    ev = astq.trace(fn)
+    # the table the member names are looked up in
+    tables = {ast.unparse(c.func.value) for c in py.walk_calls(fn) if isinstance(c.func, ast.Attribute) and c.func.attr == "get"
+              and isinstance(c.func.value, ast.Name)} | \
+             {n.value.id for n in ast.walk(fn) if isinstance(n, ast.Subscript) and isinstance(n.value, ast.Name) and isinstance(n.ctx, ast.Load)}
+    tables = {t for t in tables if any(v is not None for _t, v in astq.assignments(fn, t))}
+    if not tables:
+        raise AnalysisError("FortranNamelist.correlate: the table in which member names are looked up was not found")
+
+    def filled(name: str, depth: int = 0) -> List[ast.AST]:
+        """what a local mapping is made of, in the order of writing: `t = <mapping>` starts over, `t.update(m)` and `t[k] = v`
+        (counted as the loop it stands in) append"""
+        seq: List[ast.AST] = []
+        for e in ev:
+            if e.kind == "assign" and e.target == name and e.value is not None:
+                seq = sequence(e.value, depth)
+            elif e.kind == "call" and isinstance(e.node.func, ast.Attribute) and e.node.func.attr == "update" and \
+                    ast.unparse(e.node.func.value) == name and e.node.args:
+                seq += sequence(e.node.args[0], depth)
+            elif e.kind == "assign" and e.target and e.target.startswith(name + "["):
+                loop = e.loops[-1] if e.loops else None
+                seq.append(loop.iter if isinstance(loop, ast.For) else e.value)
+        return seq
+
+    def sequence(v: ast.AST, depth: int = 0) -> List[ast.AST]:
+        """sources of a mapping expression in the order in which they are written (a later one overwrites an earlier one)"""
+        if depth > 4:
+            return [v]
+        if isinstance(v, ast.Dict):
+            out = []
+            for k, x in zip(v.keys, v.values):
+                out += sequence(x, depth + 1) if k is None else []
+            return out
+        if isinstance(v, ast.Call) and call_name(v).split(".")[-1] == "ChainMap":
+            out = []
+            for a in reversed(v.args):          # the first mapping of a ChainMap wins
+                out += sequence(a, depth + 1)
+            return out
+        if isinstance(v, ast.Call) and call_name(v) in ("dict", "OrderedDict") and v.args:
+            return sequence(v.args[0], depth + 1)
+        if isinstance(v, ast.Call) and call_name(v) in ("dict", "OrderedDict") and not v.args:
+            return []
+        if isinstance(v, ast.Call) and isinstance(v.func, ast.Attribute) and v.func.attr == "copy":
+            return sequence(v.func.value, depth + 1)
+        if isinstance(v, ast.BinOp) and isinstance(v.op, ast.BitOr):
+            return sequence(v.left, depth + 1) + sequence(v.right, depth + 1)
+        if isinstance(v, ast.Name) and v.id not in tables:
+            inner = filled(v.id, depth + 1)
+            if inner or any(val is not None for _t, val in astq.assignments(fn, v.id)):
+                return inner
+        return [v]
+    for t in sorted(tables):
+        seq = filled(t)
+        texts = [ast.unparse(x) for x in seq]
+        i_args = max([i for i, x in enumerate(texts) if re.search(r"\.args\b", x)], default=None)
+        i_host = max([i for i, x in enumerate(texts) if "all_vars" in x], default=None)
+        if i_args is None or i_host is None:
+            raise AnalysisError(f"FortranNamelist.correlate: sources of `{t}` not understood ({texts})")
+        ok = i_args > i_host
+        rep.ob(f"FortranNamelist.correlate: dummy arguments take precedence in `{t}`", ok,
+               "the procedure's arguments are written last (or come first in a ChainMap)" if ok else
+               f"`{t}` is filled from {texts} in this order of precedence: a variable of the host scope replaces a dummy argument of the "
+               f"same name - `namelist /cfg/ tol` inside `subroutine read(tol)` documents the module's `tol`", py.nloc(fn))
+
+
+def r15_inheritance_is_transitive(ctx, rep):
+    """A type inherits what its parent *has* - the parent's own members and those the parent inherited in turn.  FortranType.correlate
+    keeps two lists: the accumulated one (`self.variables = inherited + self.variables`) and a snapshot of the type's own
+    declarations taken before (`self.local_variables = self.variables`).  What is read from the parent (`self.extends`) for
+    inheriting must be the accumulated list; reading the snapshot cuts the chain after one level - a grandchild does not know the
+    grandparent's components, `obj%comp(i)` is no longer recognised as a variable and is recorded as a call."""
+    py = ctx.py
+    fn = py.func("FortranType.correlate")
+    snapshots, accumulated = set(), set()
+    for a in ast.walk(fn):
+        if isinstance(a, ast.Assign) and len(a.targets) == 1 and isinstance(a.targets[0], ast.Attribute) and ast.unparse(a.targets[0].value) == "self":
+            t = a.targets[0].attr
+            if isinstance(a.value, ast.Attribute) and ast.unparse(a.value.value) == "self" and a.value.attr != t:
+                snapshots.add(t)
+            elif any(isinstance(x, ast.Attribute) and x.attr == t and ast.unparse(x.value) == "self" for x in ast.walk(a.value)) and \
+                    isinstance(a.value, ast.BinOp):
+                accumulated.add(t)
+    if not snapshots or not accumulated:
+        raise AnalysisError(f"FortranType.correlate: snapshot / accumulated member lists not found ({sorted(snapshots)}, {sorted(accumulated)})")
+    n = 0
+    for x in ast.walk(fn):
+        attr = None
+        if isinstance(x, ast.Attribute) and ast.unparse(x.value) == "self.extends":
+            attr = x.attr
+        elif isinstance(x, ast.Call) and call_name(x) == "getattr" and len(x.args) >= 2 and ast.unparse(x.args[0]) == "self.extends" and \
+                isinstance(x.args[1], ast.Constant):
+            attr = x.args[1].value
+        if attr is None or attr not in snapshots | accumulated:
+            continue
+        n += 1
+        ok = attr in accumulated
+        rep.ob(f"FortranType.correlate: inherits from the parent's `{attr}`", ok,
+               "the parent's accumulated list (its own members and what it inherited)" if ok else
+               f"`self.extends.{attr}` is the parent's snapshot of its *own* declarations: members the parent inherited itself are not "
+               f"passed on, so a type two levels down loses the grandparent's components", py.nloc(x))
+    if n == 0:
+        raise AnalysisError("FortranType.correlate: no read of the parent's member lists found")
+
+
+def r16_every_use_statement_applied(ctx, rep):
+    """every recorded USE statement is applied in every kind of scope (shared with C06.R9)"""
+    from . import c06
+    c06.r9_every_use_statement_applied(ctx, rep)
+
+
 RULES = [
     RuleSpec("C07.R6", r6_block_scope, "block-local declarations stay out of the enclosing scope", floor=4),
     RuleSpec("C07.R7", r7_use_is_complete_when_read, "importers are correlated after their exporters (shared with C06.R3)", floor=5),
@@ -632,4 +772,7 @@ RULES = [
     RuleSpec("C07.R12", r12_inherited_generic_specifics, "the specifics of an inherited generic are resolved in the extending type", floor=1),
     RuleSpec("C07.R13", r13_local_modules_first, "USE association prefers the project's own module (shared with C16.R3)", floor=1),
     RuleSpec("C07.R11", r11_external_tables_keep_local_names, "external modules export under their local names (shared with C06.R5)", floor=2),
+    RuleSpec("C07.R14", r14_namelist_members_innermost, "namelist members: a dummy argument hides a host variable of the same name", floor=1),
+    RuleSpec("C07.R15", r15_inheritance_is_transitive, "a type inherits the accumulated members of its parent", floor=1),
+    RuleSpec("C07.R16", r16_every_use_statement_applied, "every recorded USE statement is applied in every kind of scope (shared with C06.R9)", floor=1),
 ]
